@@ -24,8 +24,62 @@ fn chk_compose_paths(p: &BigInt, q: &BigInt) -> Option<Value> {
     }
 }
 
+// ---- deserialiser vs consensus: tool Ok(v) => consensus Ok(same bytes); consensus Err => tool Err
+fn tool_deser(data: &[u8]) -> Option<Vec<u8>> {
+    use chialisp::classic::clvm::__type_compatibility__::{Bytes, BytesFromType, Stream};
+    use chialisp::classic::clvm::serialize::{sexp_from_stream, SimpleCreateCLVMObject};
+    let d = data.to_vec();
+    catch_unwind(move || {
+        let mut a = clvmr::Allocator::new();
+        let mut st = Stream::new(Some(Bytes::new(Some(BytesFromType::Raw(d)))));
+        match sexp_from_stream(&mut a, &mut st, Box::new(SimpleCreateCLVMObject {})) {
+            Ok(r) => clvmr::serde::node_to_bytes(&a, r.1).ok(),
+            Err(_) => None,
+        }
+    }).unwrap_or(Some(b"<panic>".to_vec()))
+}
+fn consensus_deser(data: &[u8]) -> Option<Vec<u8>> {
+    let mut a = clvmr::Allocator::new();
+    match clvmr::serde::node_from_bytes(&mut a, data) {
+        Ok(n) => clvmr::serde::node_to_bytes(&a, n).ok(),
+        Err(_) => None,
+    }
+}
+fn chk_deser(data: &[u8]) -> Option<Value> {
+    let t = tool_deser(data);
+    let c = consensus_deser(data);
+    let bad = match (&t, &c) { (Some(tv), Some(cv)) => tv != cv, (Some(_), None) => true, _ => false };
+    if bad {
+        Some(hit(json!({"bytes": data}), format!("consensus: {:?}", c), format!("tool: {:?}", t), "sexp_from_stream vs clvmr node_from_bytes on the same bytes"))
+    } else { None }
+}
+fn deser_inputs() -> Vec<Vec<u8>> {
+    let mut v: Vec<Vec<u8>> = vec![];
+    for b in 0u16..=0xff {
+        for tail in [vec![], vec![0u8], vec![1u8, 0x41], vec![0, 1, 0x41], vec![0, 0, 1, 0x41], vec![0, 0, 0, 1, 0x41],
+                     vec![0, 0, 0, 0, 1, 0x41], vec![0, 0, 0, 0, 0, 1, 0x41], vec![0, 0, 0, 0, 0, 0, 1, 0x41], vec![0x80, 0x80]] {
+            let mut d = vec![b as u8];
+            d.extend(tail);
+            v.push(d);
+        }
+    }
+    // every length class, exact / truncated
+    for n in [0usize, 1, 0x3f, 0x40, 0x1fff, 0x2000, 0xfffff, 0x100000] {
+        let mut a = clvmr::Allocator::new();
+        let node = a.new_atom(&vec![0xaa; n]).unwrap();
+        let enc = clvmr::serde::node_to_bytes(&a, node).unwrap();
+        v.push(enc.clone());
+        if enc.len() > 1 { v.push(enc[..enc.len() - 1].to_vec()); }
+    }
+    v
+}
+
 pub fn search(name: &str, _seed: u64) -> Value {
     match name {
+        "atom_from_stream" | "sexp_from_stream" | "int_from_bytes" | "get_u32" | "read" => {
+            for d in deser_inputs() { if let Some(v) = chk_deser(&d) { return v; } }
+            nf("sexp_from_stream agrees with clvmr node_from_bytes on the enumerated byte strings")
+        }
         "compose_paths" => {
             for p in 1..200 { for q in 1..200 {
                 if let Some(v) = chk_compose_paths(&p.to_bigint().unwrap(), &q.to_bigint().unwrap()) { return v; }
@@ -38,6 +92,7 @@ pub fn search(name: &str, _seed: u64) -> Value {
 
 pub fn run_input(name: &str, input: &Value) -> Value {
     match name {
+        "atom_from_stream" | "sexp_from_stream" | "int_from_bytes" | "get_u32" | "read" => chk_deser(&bytes(&input["bytes"])).unwrap_or_else(|| nf("input does not violate the contract on this tree")),
         "compose_paths" => chk_compose_paths(&big(&input["p"]), &big(&input["q"])).unwrap_or_else(|| nf("input does not violate the contract on this tree")),
         _ => nf("no replayer for this obligation"),
     }
